@@ -115,6 +115,12 @@ func validateParts(parts []sts.Binned) error {
 			part.GetName(), part.GetRenamed(), part.GetPrev()); err != nil {
 			return err
 		}
+		// The range is used to size, seek and slice: it has to lie inside the
+		// file it claims to be a part of
+		if beg, end := part.GetSlice(); beg < 0 || end < beg || end > part.GetFileSize() {
+			return fmt.Errorf("invalid byte range for %q: %d-%d of %d",
+				part.GetName(), beg, end, part.GetFileSize())
+		}
 	}
 	return nil
 }
